@@ -360,7 +360,7 @@ fn setup_sandbox(sb: &Sandbox, c: &PrecCase) -> std::path::PathBuf {
 }
 
 fn run_cli_in(w: &Path, args: Vec<String>) -> run::ProcRun {
-    run::spawn(Spawn { program: run::cli_binary(), args, cwd: w, schedule_env: None, trace_file: None, strace: None })
+    run::spawn(Spawn { program: run::cli_binary(), args, cwd: w, schedule_env: None, trace_file: None, strace: None , hash_seed: None})
 }
 
 fn find_outputs(root: &Path) -> BTreeMap<String, String> {
